@@ -97,6 +97,7 @@ func VerifC16Relay(depth, mask, optBits int) {
 	}
 	// over the wire
 	wire := outer.ToBytes()
+	kept := append([]byte(nil), wire...)
 	back, err := FromBytes(wire)
 	verifAssert(err == nil, "chain-decodes")
 	if err == nil {
@@ -155,6 +156,15 @@ func VerifC16Relay(depth, mask, optBits int) {
 				cur, _ = DecapsulateRelay(cur)
 			}
 			verifAssert(cur == DHCPv6(reply), "given-reply-is-innermost")
+			// the reply chain goes over the wire while the forward chain's datagram is still held:
+			// each encoding is the caller's, a later one does not rewrite an earlier one
+			rw := rr.ToBytes()
+			verifAssert(verifSame(wire, kept), "datagram-encoded-earlier-stays-as-it-was")
+			rback, rerr := FromBytes(rw)
+			verifAssert(rerr == nil && rback != nil && rback.IsRelay(), "relay-reply-chain-decodes")
+			fback, ferr := FromBytes(wire)
+			verifAssert(ferr == nil && fback != nil && verifSame(fback.ToBytes(), kept), "chain-decodes")
+			verifAssert(verifSame(rw, rr.ToBytes()), "datagram-encoded-earlier-stays-as-it-was")
 		}
 	}
 	if depth > 0 {
